@@ -2,6 +2,7 @@
 From Coq Require Import ZArith List Bool.
 From RP Require Import Sched.Model Sched.NodeMap Sched.FindProofs Sched.Inv Sched.SchedProofs Sched.ShapeProofs Sched.ExclProofs Sched.TagMono.
 From Coq Require String.
+From RP Require Sched.Oracle.
 From RP Require AppSlots.Model AppSlots.Oracle AppSlots.NodeProofs AppSlots.InvProofs AppSlots.Proofs.
 Import ListNotations.
 Open Scope Z_scope.
@@ -127,6 +128,23 @@ Theorem C02_reachable_exclusive_avoids_all_tags :
     forall tag' h, zlookup tag' (colo (st w')) = Some h -> forall x, In x sl -> ~ In (s_node x) h.
 Proof. exact reachable_exclusive_avoids_all_tags. Qed.
 Print Assumptions C02_reachable_exclusive_avoids_all_tags.
+
+(* the oracle clause exclusive_tag_nodes (Sched/Oracle.c02_excl_bit, the function the check evaluates on every
+   grant of the implementation), fed with the model's own tag records and tagged set, is true on every grant of
+   the model: the clause demands nothing the code's model does not guarantee *)
+Theorem C02_exclusive_clause_holds_in_model :
+  forall (c : cfg) (s : sstate) (t : req) off co tg (sl : list slot),
+    schedule_task c s t = inr (off, co, tg, Some sl) ->
+    RP.Sched.Oracle.c02_excl_bit (colo s) (tagged s) (length (nodes s)) t sl = true.
+Proof. exact excl_clause_holds_on_model_grant. Qed.
+Print Assumptions C02_exclusive_clause_holds_in_model.
+
+Theorem C02_colocate_clause_holds_in_model :
+  forall (c : cfg) (s : sstate) (t : req) off co tg (sl : list slot),
+    schedule_task c s t = inr (off, co, tg, Some sl) ->
+    RP.Sched.Oracle.c02_colo_bit (colo s) t sl = true.
+Proof. exact colo_clause_holds_on_model_grant. Qed.
+Print Assumptions C02_colocate_clause_holds_in_model.
 
 (* PARTIAL: placements supplied by the application are passed through as they
    are (their shape is the application's). *)
